@@ -172,6 +172,7 @@ func c01Alphabet(thorough bool) authAlphabet {
 }
 
 func c01Run(c *fw.Ctx) {
+	c.Retries = 2 // socket-based harness: tolerate a transient glitch while replaying a prefix
 	vtime.SetManual(harness.T0)
 	defer vtime.SetReal()
 	pols := c01Policies(c.Thorough())
